@@ -729,14 +729,16 @@ PROPS = {
         "rule": "(a) Display of generated formulas / specifications / user guides vs the Lean printer models, text equality; (b) fol_parse: parse::<Theory|Specification|UserGuide>() vs the Lean model of the grammar and "
                 "tree builders (accepted or not, and the tree) on printed texts, fully parenthesised renderings, re-spaced / commented variants, near-miss edits and a corpus of corner cases (corpus/fol_texts.txt: sort suffixes, "
                 "keyword boundaries, `<-` vs `< -`, chained comparisons, directions and names of annotated formulas, placeholder declarations); (c) round trip on the real pest parser as C14 for formulas (all connectives, "
-                "quantifier prefixes, chained comparisons, sorted variables and constants, predicate names notify / forallx / existsx / andy / orb / input / spec)",
-        "level_text": "Partial: printers and parser modelled exactly and tied by correspondence. Proved at the pair level: pratt_inverts_formula_parenthesisation (pest's Pratt parser with the table of pest.rs returns every formula "
-                      "from the pair sequence of its printed text: five connectives, mandatory parentheses of the mixed level <->, ->, <-, negation and quantifier prefixes in any position) and "
-                      "pratt_inverts_integer_term_parenthesisation; quantified_atomic, comparison_after_reverse_implication (the printer facts behind the repaired defects). Not proved: the character level for the target "
-                      "language (printed tokens are lexed back: sort suffixes, keyword boundaries, greedy variable lists) - covered by the fol_parse correspondence and the round-trip exploration. Three genuine defects repaired "
-                      "(db0baa0, 3af4e16, d0885ee).",
+                "quantifier prefixes, chained comparisons, sorted variables and constants, predicate names notify / forallx / existsx / andy / orb / input / spec, constants named not / forall / exists / and / or, fully parenthesised integer terms)",
+        "level_text": "Full for the model, no hypothesis on the text: accepted_theory_roundtrip, accepted_specification_roundtrip, accepted_user_guide_roundtrip (for every text the parser accepts, the printed tree is "
+                      "accepted and parses to the identical tree; *_print_parse_print: and prints to itself). They combine parse*_print* (character level: the PEG with pest's rules, both Pratt tables and the tree builders invert the "
+                      "printer on every safe tree - names of the grammar's lexical shape, a guard in every comparison, a variable in every quantifier, no atomic formula starting with the name `not`; formulaL_printL by induction on "
+                      "formula size with the wrong-alternative lemmas: `p <- q` is not `p < -q`, `(l) op r` is not a parenthesised formula, keyword-named constants `forall(a)`, `exists = 3`, `not$i + 1 = 2`) with parse*_safe "
+                      "(every tree in the parser's image is safe). Pair level: pratt_inverts_formula_parenthesisation, pratt_inverts_integer_term_parenthesisation. The model is tied to the real pest parser and printers by the "
+                      "print and fol_parse correspondences on every run. Four genuine defects repaired (db0baa0, 3af4e16, d0885ee, 2ca6488 - the last found by weakening the theorem's hypothesis to the parser's image).",
         "level_note": PROOF_NOTE + " pest itself is modelled from its documentation and source (2.8.2) and tied by the fol_parse correspondence.",
-        "technique": "Lean 4 proof (Pratt inversion for formulas and integer terms; printer lemmas) + differential correspondence (printer text, parser trees) + round-trip exploration on the real parser",
+        "technique": "Lean 4 proof (character-level inversion of the PEG/Pratt parser model on printed text by induction on formula size; image of the parser by fuel induction; Pratt inversion) + differential correspondence "
+                     "(printer text, parser trees) + round-trip exploration on the real parser",
         "design_ref": "DESIGN.md 6/C15",
         "trusted_base": COMMON_TRUST + ["the Lean model of pest's PEG semantics and Pratt parser, tied by correspondence"],
         "assumptions": COMMON_ASSUME,
